@@ -100,6 +100,7 @@ def plan(tier, seed):
         n, ch = _N[tier][kind], _CHUNK[tier][kind]
         for s in range(0, n, ch):
             units.append({"kind": kind, "start": s, "stop": min(n, s + ch), "w": (min(n, s + ch) - s) * cost[kind]})
+    units.append({"kind": "huge", "start": 0, "stop": 6 if tier == "quick" else 24, "w": 30})
     if tier == "thorough":
         units.append({"kind": "suite", "w": 200})      # the repository's own tests with the contracts installed
     return units
@@ -653,7 +654,60 @@ def dim1_case(ctx, idx):
                              "centres": centres.tolist()})
 
 
+HUGE_SHAPES = ((4097, 4099), (5000, 4000), (9001, 9001), (3, 2 ** 24 + 5), (2 ** 25 + 3, 1), (4096, 4096))
+
+
+def huge_case(ctx, idx):
+    """Frames with more than 2**24 pixels (flattened indexes no longer representable in single precision): coordinates at pixel
+    centres and interior points of pixels with large indexes, incl. the last pixel. No mask is allocated (geometry object and
+    the util function only); the query points are carried by a small grid."""
+    aa = ctx.aa
+    if not ctx.begin("huge:%d" % idx):
+        return
+    rng = gen.rng_for(ctx.seed, NO, 9, idx)
+    H, W = HUGE_SHAPES[idx % len(HUGE_SHAPES)]
+    s = (float(rng.uniform(0.05, 2.0)), float(rng.uniform(0.05, 2.0)))
+    o = (0.0, 0.0) if idx % 2 == 0 else (float(rng.normal()), float(rng.normal()))
+    K = 60
+    ii = np.concatenate([[H - 1, H - 1, 0], rng.integers(max(0, H - 1 - H // 3), H, size=K - 3)]).astype(np.int64)
+    jj = np.concatenate([[W - 1, 0, W - 1], rng.integers(0, W, size=K - 3)]).astype(np.int64)
+    off = rng.uniform(-0.3, 0.3, size=(K, 2))
+    off[:3] = 0.0
+    pts = np.stack([o[0] + ((H - 1) / 2.0 - ii - off[:, 0]) * s[0], o[1] + (jj - (W - 1) / 2.0 + off[:, 1]) * s[1]], axis=-1)
+    ij, care = containing_pixel(pts, (H, W), s, o)
+    care = care & (ij[:, 0] == ii) & (ij[:, 1] == jj)
+    flat = ii * W + jj
+    wit = dict(shape=(H, W), scales=s, origin=o)
+    from autoarray.geometry import geometry_util
+    ok, got = ctx.guarded("points.indexes", lambda: np.asarray(geometry_util.grid_pixel_indexes_2d_slim_from(
+        grid_scaled_2d_slim=pts.copy(), shape_native=(H, W), pixel_scales=s, origin=o)))
+    if ok:
+        bad = care & (got.astype(np.int64) != flat) if got.shape == (K,) else np.ones(K, bool)
+        ctx.check(got.shape == (K,) and not bad.any(), "points.indexes", batch="huge_frame(util)", offending=lambda: _first_bad(pts, flat, got, bad), **wit)
+    ok, got = ctx.guarded("points.centres", lambda: np.asarray(geometry_util.grid_pixel_centres_2d_slim_from(
+        grid_scaled_2d_slim=pts.copy(), shape_native=(H, W), pixel_scales=s, origin=o)))
+    if ok:
+        bad = care & np.any(got.astype(np.int64) != np.stack([ii, jj], -1), axis=1) if got.shape == (K, 2) else np.ones(K, bool)
+        ctx.check(got.shape == (K, 2) and not bad.any(), "points.centres", batch="huge_frame(util)", offending=lambda: _first_bad(pts, np.stack([ii, jj], -1), got, bad), **wit)
+    geo = aa.Geometry2D(shape_native=(H, W), pixel_scales=s, origin=o) if hasattr(aa, "Geometry2D") else None
+    if geo is None:
+        from autoarray.geometry.geometry_2d import Geometry2D
+        geo = Geometry2D(shape_native=(H, W), pixel_scales=s, origin=o)
+    G = aa.Grid2D.no_mask(values=pts.reshape(6, 10, 2).copy(), pixel_scales=(1.0, 1.0))
+    ok, got = ctx.guarded("points.indexes", lambda: _np(geo.grid_pixel_indexes_2d_from(grid_scaled_2d=G).slim))
+    if ok:
+        bad = care & (got.astype(np.int64) != flat) if got.shape == (K,) else np.ones(K, bool)
+        ctx.check(got.shape == (K,) and np.issubdtype(got.dtype, np.integer) and not bad.any(), "points.indexes", batch="huge_frame(geometry)",
+                  got_dtype=str(got.dtype), offending=lambda: _first_bad(pts, flat, got, bad), **wit)
+    for t in range(3):
+        ok, got = ctx.guarded("scalar.pixel_of_point", geo.pixel_coordinates_2d_from, scaled_coordinates_2d=(float(pts[t, 0]), float(pts[t, 1])))
+        if ok:
+            ctx.check(tuple(int(v) for v in got) == (int(ii[t]), int(jj[t])), "scalar.pixel_of_point", batch="huge_frame", expected=(int(ii[t]), int(jj[t])), got=got, **wit)
+    ctx.case("huge", H, W, s, o, nontrivial=True, cls=["frame_over_2^24_pixels" if H * W > 2 ** 24 else "frame_exactly_2^24_pixels"],
+             sample=lambda: {"kind": "huge", "shape": [H, W], "pixel_scales": s, "origin": o, "largest_index_queried": int(flat.max())})
+
+
 def run_unit(ctx, u):
-    fn = {"geom": geom_case, "ctor": ctor_case, "dim1": dim1_case}[u["kind"]]
+    fn = {"geom": geom_case, "ctor": ctor_case, "dim1": dim1_case, "huge": huge_case}[u["kind"]]
     for idx in range(u["start"], u["stop"]):
         fn(ctx, idx)
